@@ -16,7 +16,10 @@ Before every run the worker calls ``random.seed(s)`` / ``numpy.random.seed(s)`` 
 ``(time_ns, event_type, target name)`` and the digest of its statistics snapshot are identical in W0, W0', W1,
 W2 and W0s.  Cause classes (deterministic function of which digests differ):
 
-* ``wall-clock``       W0 != W0s  (same hash seed, same order, same history: only wall time differs);
+* ``wall-clock``       W0 != W0s  (same hash seed, same order, same history: only wall time differs); for a family
+                       declared fully explicitly seeded (catalogue trait ``noglobalseed``: the harness does not seed the
+                       module-level generators for it) the label is ``global-rng``: fresh interpreters also differ
+                       in the OS-seeded state of ``random`` / ``numpy.random``;
 * ``process-history``  W0 == W0s but W0 != W0' (second run in the same process), or W0 != W1/W2 and replaying
                        that worker's exact job (order, preamble, allocations) under PYTHONHASHSEED=0 still
                        differs from W0 (the history alone explains it);
@@ -40,7 +43,9 @@ from ..runner import HOME, Obligation, Result
 P = "C03"
 ASSUMPTIONS = [
     "models are the finite scenario catalogue of vfw/scenarios.py; 'the same seeds' = random.seed(s) and "
-    "numpy.random.seed(s) before building, plus explicit seed= arguments wherever a component accepts one",
+    "numpy.random.seed(s) before building, plus explicit seed= arguments (0, 1 and the case seed) wherever a component "
+    "accepts one; the family explicit_seeds, in which every random choice has an explicit seed, is built WITHOUT seeding "
+    "the module-level generators - it must not depend on them",
     "the delivery log compares (time_ns, event_type, target.name): names are labels chosen by the builders or fixed by the "
     "library ('once:<type>', '<server>.queue', 'rate_limit_poll::<name>'); no name in the catalogue embeds id(), a uuid or a "
     "process-global counter, so no normalisation is applied to the delivery log",
@@ -236,7 +241,10 @@ def execute(case):
             if len(set(d.values())) == 1:
                 continue
             if d["W0"] != d["W0s"]:
-                cause, other = "wall-clock", "W0s"
+                # a family that declares every random choice explicitly seeded is built without seeding the
+                # module-level generators: two fresh interpreters then differ in that (OS-seeded) state as well
+                explicit = "noglobalseed" in scenarios.TRAITS.get(base.get("base_family", fam), ())
+                cause, other = ("global-rng" if explicit else "wall-clock"), "W0s"
             elif d.get("W0'", d["W0"]) != d["W0"]:
                 cause, other = "process-history", "W0'"
             else:
